@@ -42,12 +42,12 @@ const (
 
 // ChoicePoint is one recorded nondeterministic decision.
 type ChoicePoint struct {
-	N       int        // number of alternatives
-	Chosen  int        // alternative taken
-	Kind    ChoiceKind
-	Preempt bool   // KSched: alternatives >0 (and < timer alt) are preemptions of a runnable thread
-	TimerAlt int   // KSched: index of the "fire earliest timer now" alternative (costs a deviation), or -1
-	Tag     string // short description for replay files / divergence detection
+	N        int // number of alternatives
+	Chosen   int // alternative taken
+	Kind     ChoiceKind
+	Preempt  bool   // KSched: alternatives >0 (and < timer alt) are preemptions of a runnable thread
+	TimerAlt int    // KSched: index of the "fire earliest timer now" alternative (costs a deviation), or -1
+	Tag      string // short description for replay files / divergence detection
 }
 
 // Thread is a managed goroutine.
@@ -75,44 +75,44 @@ type timer struct {
 
 // Options bound one execution.
 type Options struct {
-	Horizon     int  // max scheduling steps per execution (0 = 20000)
-	EarlyTimers bool // offer "fire the earliest timer now" as a deviation at scheduling points
+	Horizon     int            // max scheduling steps per execution (0 = 20000)
+	EarlyTimers bool           // offer "fire the earliest timer now" as a deviation at scheduling points
 	MaxVirtual  stime.Duration // virtual time after which blocked required threads are declared deadlocked (0 = 1h)
 }
 
 // Exec is one execution of a harness body under the scheduler.
 type Exec struct {
-	Opts     Options
-	prefix   []int
-	Points   []ChoicePoint
-	threads  []*Thread
-	timers   []*timer
-	tseq     int
-	now      int64
-	steps    int
-	status   Status
-	finished bool
-	aborting bool
-	doneCh   chan struct{}
-	ackCh    chan struct{}
-	PanicVal any
-	PanicStk string
-	PanicThr string
-	Diverged string // non-empty: replay divergence (machinery error)
-	traceH   uint64
-	Trace    []string // filled when TraceOn
-	TraceOn  bool
-	lastRan  *Thread
-	randCtr  uint64
-	Gen      uint64
-	cleanup  []func()
-	Log      []string // harness/observer log (deterministic order because execution is serial)
-	userData map[string]any
+	Opts              Options
+	prefix            []int
+	Points            []ChoicePoint
+	threads           []*Thread
+	timers            []*timer
+	tseq              int
+	now               int64
+	steps             int
+	status            Status
+	finished          bool
+	aborting          bool
+	doneCh            chan struct{}
+	ackCh             chan struct{}
+	PanicVal          any
+	PanicStk          string
+	PanicThr          string
+	Diverged          string // non-empty: replay divergence (machinery error)
+	traceH            uint64
+	Trace             []string // filled when TraceOn
+	TraceOn           bool
+	lastRan           *Thread
+	randCtr           uint64
+	Gen               uint64
+	cleanup           []func()
+	Log               []string // harness/observer log (deterministic order because execution is serial)
+	userData          map[string]any
 	blockedOnDeadlock []string
-	Blocks   int    // how often a thread arrived at an operation that was not enabled (threads really interacted)
-	FailSig  string // set by the harness body through Fail
-	FailMsg  string
-	Outcome  string // harness-defined outcome class of this execution
+	Blocks            int    // how often a thread arrived at an operation that was not enabled (threads really interacted)
+	FailSig           string // set by the harness body through Fail
+	FailMsg           string
+	Outcome           string // harness-defined outcome class of this execution
 }
 
 // Fail records an oracle violation for this execution (first one wins).
@@ -691,20 +691,20 @@ type Budget struct {
 	// default there is the lowest-numbered enabled thread. -1 = unlimited
 	// (all orders explored, CHESS style); 0 is NOT the zero value's meaning: use NoDelayBound.
 	MaxDelay int
-	MaxExecs   int64 // 0 = unlimited
+	MaxExecs int64 // 0 = unlimited
 }
 
 // Stats is the coverage of one Explore call.
 type Stats struct {
-	Execs       int64
-	Steps       int64
-	Schedules   map[uint64]struct{} // distinct trace hashes
-	ByStatus    map[string]int64
-	MaxPoints   int
-	Capped      bool   // MaxExecs or time budget hit
-	Diverged    string // machinery error
-	CompletedP  int    // highest preemption bound fully explored (-1 none)
-	LevelExecs  []int64
+	Execs      int64
+	Steps      int64
+	Schedules  map[uint64]struct{} // distinct trace hashes
+	ByStatus   map[string]int64
+	MaxPoints  int
+	Capped     bool   // MaxExecs or time budget hit
+	Diverged   string // machinery error
+	CompletedP int    // highest preemption bound fully explored (-1 none)
+	LevelExecs []int64
 }
 
 type task struct {
@@ -716,15 +716,15 @@ type task struct {
 
 // Explorer enumerates executions of Body.
 type Explorer struct {
-	Opts    Options
-	Budget  Budget
-	Body    func(x *Exec)              // builds the system, calls x.Run(), checks the oracle
-	After   func(x *Exec)              // optional: called after teardown with the finished execution
+	Opts           Options
+	Budget         Budget
+	Body           func(x *Exec) // builds the system, calls x.Run(), checks the oracle
+	After          func(x *Exec) // optional: called after teardown with the finished execution
 	Shard, NShards int
-	ShardDepth int // tasks at this branch depth are distributed over shards (default 2)
-	TimeUp  func() bool
-	StopNow func() bool // e.g. violation found and harness wants to stop early
-	owned   int
+	ShardDepth     int // tasks at this branch depth are distributed over shards (default 2)
+	TimeUp         func() bool
+	StopNow        func() bool // e.g. violation found and harness wants to stop early
+	owned          int
 }
 
 // RunOnce executes Body once with the given choice prefix.
